@@ -5,6 +5,7 @@
          on the same two lists (or listed with a reason); arity checks precede component checks   [R01.2]
   R04.3  hand-written type equality reads every typing-relevant field                             [R01.3]
   R04.4  case coverage of the sibling relations bind_in_assignment / common_type / eq is consistent with the listed table
+  R04.8  matching a parameter type that is a generic variable always records a binding (abstract evaluation)
 """
 import re
 from .lib import astq
@@ -169,6 +170,10 @@ def run(ctx):
     # ---------------- R04.1 declared types demand an empty binding
     r1 = ctx.rule('R04.1', 'declared-type checks reject a non-empty binding')
     declared_type_table(ctx, r1)
+
+    # ---------------- R04.8 a match of a generic variable is always recorded
+    r8 = ctx.rule('R04.8', 'matching a generic parameter type always records a binding for it (also against a generic of the same name)')
+    generic_match_recorded(ctx, r8)
 
     # ---------------- R04.2 zips
     r2 = ctx.rule('R04.2', 'every zip of two runtime-length lists is preceded by a length test on the same lists')
@@ -528,3 +533,59 @@ def _returns_events(absint, mir, b, call_term, result_value, call_oracle, event_
     finally:
         absint.CURRENT.pop()
     return events
+
+
+def generic_match_recorded(ctx, r8):
+    """R04.8 (abstract evaluation of XType::bind_in_assignment on a parameter type that is a generic variable): whatever the
+    argument type is -- another type, another generic, or a generic *of the same name* (the caller's own type parameter) -- the
+    result records the match (a binding for that variable), so that a second, different match of the same variable conflicts."""
+    from .lib import absint, mirq
+    from .lib.facts import strip_generics, callee_name
+    mir = ctx.mir
+    bs = mir.find('xtype::XType::bind_in_assignment')
+    adt = mir.adts.get('xtype::XType')
+    if len(bs) != 1 or not adt:
+        r8.fail('anchor/bind_in_assignment', 'src/xtype.rs', 'XType::bind_in_assignment not found')
+        r8.need(3)
+        return
+    b = bs[0]
+    vidx = {v['name']: i for i, v in enumerate(adt['variants'])}
+    other_kind = next(v['name'] for v in adt['variants'] if v['name'] not in ('XGeneric', 'XUnknown') and not v['fields'])
+    scenarios = [('a generic of the same name', ('enum', vidx['XGeneric'], 'XGeneric', ('N',))),
+                 ('a generic of another name', ('enum', vidx['XGeneric'], 'XGeneric', ('M',))),
+                 ('a concrete type', ('enum', vidx[other_kind], other_kind, ()))]
+    for label, other in scenarios:
+        def oracle(tm, vals, env):
+            nm = strip_generics(callee_name(tm) or '')
+            if nm.endswith('AsRef>::as_ref') or nm.endswith('::as_ref') or nm.endswith('Deref>::deref'):
+                v0 = absint.deref(None, env, vals[0]) if vals else absint.UNKNOWN
+                if isinstance(v0, tuple) and v0 and v0[0] == 'arc':
+                    return ('ref', v0[1])
+                return absint.UNKNOWN
+            if 'PartialEq' in nm and nm.endswith(('::eq', '::ne')):
+                ds = [absint.deref(None, env, absint.deref(None, env, absint.deref(None, env, v))) for v in vals]
+                if len(ds) == 2 and all(d in ('N', 'M') for d in ds):
+                    return (ds[0] == ds[1]) == nm.endswith('eq')
+                return absint.UNKNOWN
+            if nm == 'xtype::Bind::new':
+                return ('adt', 'Bind', 'empty')
+            if nm == 'xtype::Bind::from' or nm.endswith('Bind::from'):
+                return ('adt', 'Bind', 'recorded')
+            return absint.UNKNOWN
+        env0 = {'_1': ('ref', '#self'), '#self': ('enum', vidx['XGeneric'], 'XGeneric', ('N',)),
+                '_2': ('ref', '#otherarc'), '#otherarc': ('arc', '#other'), '#other': other}
+        rs = absint.returns(mir, b, env0, oracle)
+        kinds = set()
+        for r in rs:
+            if isinstance(r, tuple) and r and r[0] == 'some' and isinstance(r[1], tuple) and len(r[1]) > 2 and r[1][1] == 'Bind':
+                kinds.add(r[1][2])
+            elif r == 'none':
+                kinds.add('no match')
+            else:
+                kinds.add('unrecognised')
+        ok = kinds == {'recorded'}
+        r8.inst({'parameter_type': 'a generic variable', 'argument_type': label, 'result': sorted(kinds)}, ok=ok, kind=label)
+        if not ok:
+            key = {'a generic of the same name': 'same-name-generic-unrecorded'}.get(label, label.replace(' ', '-'))
+            r8.fail('bind_in_assignment/%s' % key, mirq.site(b, 0), 'a parameter type that is a generic variable, matched against %s, gives %s instead of a recorded binding: a second, conflicting match of the same variable (f<T>(a: Sequence<T>, b: T) called as f(x: Sequence<T>, 3) inside g<T>) is then accepted' % (label, sorted(kinds)))
+    r8.need(3)
